@@ -68,8 +68,20 @@ def main(p):
             out['failures'].append(dict(cell=cell['id'], client=client, history=hist, kind=kind, detail=str(detail)[:400]))
         out['outcomes'][kind] = out['outcomes'].get(kind, 0) + 1
 
-    def script(hist):
-        return [reply if x == 'OK' else seams.Err(getattr(grpc.StatusCode, x)) for x in hist]
+    def script(hist, stream=False):
+        return [([reply] if stream else reply) if x == 'OK' else seams.Err(getattr(grpc.StatusCode, x)) for x in hist]
+
+    # which status codes can a REST server express?  Those whose api-core exception class is what its HTTP status maps back to.
+    HTTP_OF = {}
+    for cname in a['all_codes']:
+        cls = core_exc.exception_class_for_grpc_status(getattr(grpc.StatusCode, cname))
+        if getattr(cls, 'code', None) and type(core_exc.from_http_status(cls.code, 'x')) is cls:
+            HTTP_OF[cname] = int(cls.code)
+
+    def http_script(hist, stream=False):
+        ok = (200, b'[{"ok": true}]' if stream else b'{"ok": true}')
+        return [ok if x == 'OK' else (HTTP_OF[x], ('{"error": {"code": %d, "message": "scripted", "status": "%s"}}' % (HTTP_OF[x], x)).encode())
+                for x in hist]
 
     def classify(exc):
         if exc is None:
@@ -115,7 +127,7 @@ def main(p):
                 return fail(cell, client, hist, 'timeout-later' + what, f'attempt {i} timeout {e["timeout"]} exceeds {limit} (remaining {remaining}, entry {tmo})')
 
     def overrides(cell):
-        if cell['id'] not in ('single/UNAVAILABLE', 'unnamed/Ret', 'policy/typical', 'timeout=None/policy=True'):
+        if cell['id'] not in ('single/UNAVAILABLE', 'unnamed/Ret', 'policy/typical', 'timeout=None/policy=True', 'stream/policy+timeout', 'unnamed/stream'):
             return
         custom = dict(initialBackoff='1s', maxBackoff='1s', backoffMultiplier=1)
         yield 'retry=None', dict(retry=None), ['UNAVAILABLE', 'OK'], dict(retry_codes=[], policy=None)
@@ -123,52 +135,69 @@ def main(p):
         yield 'custom-retry', 'CUSTOM', ['NOT_FOUND', 'NOT_FOUND', 'OK'], dict(retry_codes=['NOT_FOUND'], policy=custom, timeout=10.0)
         yield 'custom-retry-other-code', 'CUSTOM', ['UNAVAILABLE', 'OK'], dict(retry_codes=['NOT_FOUND'], policy=custom, timeout=10.0)
 
-    # ------------------------------------------------------------------ sync
-    clients = {}
-    for cell in a['cells']:
-        if cell['service'] not in clients:
-            clients[cell['service']] = libs[cell.get('package', a['package'])].sync(cell['service'], clock)
-        client, ch = clients[cell['service']]
-        meth = getattr(client, cell['py'])
-        for hist in histories(cell, a['all_codes'], a['depth']):
-            out['histories'] += 1
-            ch.log.clear()
-            ch.script = script(hist)
-            clock.sleeps.clear()
-            t0 = clock.t
-            exc = None
-            try:
-                meth(request={'name': 'n'})
-            except BaseException as e:
-                exc = e
-            out['attempts'] += len(ch.log)
-            exp = expect(cell, hist)
-            if judge(cell, 'sync', hist, exc, list(ch.log), list(clock.sleeps), t0, exp) is True:
-                check_timeouts(cell, 'sync', hist, list(ch.log), cell['timeout'], exp[3])
-                out['outcomes']['ok-history'] = out['outcomes'].get('ok-history', 0) + 1
-            if len(ch.log) >= 2:
-                out['nontrivial_total'] += 1
-                if len(out['nontrivial']) < 400:
-                    out['nontrivial'].append(f'{cell["id"]}|sync|{"-".join(hist)}')
-            if len(out['samples']) < 2 and len(hist) >= 3:
-                out['samples'].append(dict(cell=cell['id'], history=hist, attempts=len(ch.log), sleeps=list(clock.sleeps),
-                                           attempt_timeouts=[e['timeout'] for e in ch.log], outcome=classify(exc)))
-        for name, kw, hist, ref in overrides(cell):
-            out['histories'] += 1
-            if kw == 'CUSTOM':
-                kw = dict(retry=retries.Retry(predicate=retries.if_exception_type(core_exc.NotFound), initial=1.0, maximum=1.0,
-                                              multiplier=1.0, timeout=10.0), timeout=10.0)
-            ch.log.clear()
-            ch.script = script(hist)
-            clock.sleeps.clear()
-            exc = None
-            try:
-                meth(request={'name': 'n'}, **kw)
-            except BaseException as e:
-                exc = e
-            exp = expect(cell, hist, **ref)
-            if judge(cell, 'sync', hist, exc, list(ch.log), list(clock.sleeps), clock.t, exp, what=f'[{name}]') is True and 'timeout' in ref:
-                check_timeouts(cell, 'sync', hist, list(ch.log), ref['timeout'], exp[3], what=f'[{name}]')
+    # ------------------------------------------------------------ sync gRPC and REST
+    seam = seams.HttpSeam(clock).install()
+
+    def drive_blocking(kind):
+        clients = {}
+        for cell in a['cells']:
+            lib = libs[cell.get('package', a['package'])]
+            if cell['service'] not in clients:
+                clients[cell['service']] = lib.sync(cell['service'], clock) if kind == 'sync' else (lib.rest(cell['service']), seam)
+            client, ch = clients[cell['service']]
+            meth = getattr(client, cell['py'])
+            stream = cell.get('stream', False)
+
+            def call(**kw):
+                ret = meth(request={'name': 'n'}, **kw)
+                if stream:
+                    list(ret)
+
+            def arm(hist):
+                ch.log.clear()
+                ch.script = script(hist, stream) if kind == 'sync' else http_script(hist, stream)
+                clock.sleeps.clear()
+
+            for hist in histories(cell, a['all_codes'], a['depth']):
+                if kind == 'rest' and any(x != 'OK' and x not in HTTP_OF for x in hist):
+                    continue
+                out['histories'] += 1
+                arm(hist)
+                t0 = clock.t
+                exc = None
+                try:
+                    call()
+                except BaseException as e:
+                    exc = e
+                out['attempts'] += len(ch.log)
+                exp = expect(cell, hist)
+                if judge(cell, kind, hist, exc, list(ch.log), list(clock.sleeps), t0, exp) is True:
+                    check_timeouts(cell, kind, hist, list(ch.log), cell['timeout'], exp[3])
+                    out['outcomes']['ok-history'] = out['outcomes'].get('ok-history', 0) + 1
+                if len(ch.log) >= 2:
+                    out['nontrivial_total'] += 1
+                    if len(out['nontrivial']) < 400:
+                        out['nontrivial'].append(f'{cell["id"]}|{kind}|{"-".join(hist)}')
+                if len(out['samples']) < 2 and len(hist) >= 3 and kind == 'sync':
+                    out['samples'].append(dict(cell=cell['id'], history=hist, attempts=len(ch.log), sleeps=list(clock.sleeps),
+                                               attempt_timeouts=[e['timeout'] for e in ch.log], outcome=classify(exc)))
+            for name, kw, hist, ref in overrides(cell):
+                out['histories'] += 1
+                if kw == 'CUSTOM':
+                    kw = dict(retry=retries.Retry(predicate=retries.if_exception_type(core_exc.NotFound), initial=1.0, maximum=1.0,
+                                                  multiplier=1.0, timeout=10.0), timeout=10.0)
+                arm(hist)
+                exc = None
+                try:
+                    call(**kw)
+                except BaseException as e:
+                    exc = e
+                exp = expect(cell, hist, **ref)
+                if judge(cell, kind, hist, exc, list(ch.log), list(clock.sleeps), clock.t, exp, what=f'[{name}]') is True and 'timeout' in ref:
+                    check_timeouts(cell, kind, hist, list(ch.log), ref['timeout'], exp[3], what=f'[{name}]')
+
+    drive_blocking('sync')
+    drive_blocking('rest')
 
     # --------------------------------------------------------------- asyncio
     async def amain():
@@ -181,11 +210,13 @@ def main(p):
             for hist in histories(cell, a['all_codes'], a['depth']):
                 out['histories'] += 1
                 ch.log.clear()
-                ch.script = script(hist)
+                ch.script = script(hist, cell.get('stream', False))
                 clock.sleeps.clear()
                 exc = None
                 try:
-                    await meth(request={'name': 'n'})
+                    r_ = await meth(request={'name': 'n'})
+                    if cell.get('stream'):
+                        [x async for x in r_]
                 except BaseException as e:
                     exc = e
                 out['attempts'] += len(ch.log)
@@ -203,11 +234,13 @@ def main(p):
                     kw = dict(retry=retry_async.AsyncRetry(predicate=retries.if_exception_type(core_exc.NotFound), initial=1.0,
                                                            maximum=1.0, multiplier=1.0, timeout=10.0), timeout=10.0)
                 ch.log.clear()
-                ch.script = script(hist)
+                ch.script = script(hist, cell.get('stream', False))
                 clock.sleeps.clear()
                 exc = None
                 try:
-                    await meth(request={'name': 'n'}, **kw)
+                    r_ = await meth(request={'name': 'n'}, **kw)
+                    if cell.get('stream'):
+                        [x async for x in r_]
                 except BaseException as e:
                     exc = e
                 exp = expect(cell, hist, **ref)
